@@ -113,7 +113,11 @@ func (in *Interp) builtin(e *vh.CallExpr) (Value, error) {
 		if math.IsNaN(f) || math.IsInf(f, 0) {
 			return null(), unsupported("int() of a non-finite number")
 		}
-		return num(math.Trunc(f)), nil
+		t := math.Trunc(f)
+		if t == 0 && in.cfg.IntDropsNegZero {
+			t = 0 // +0
+		}
+		return num(t), nil
 	case lexer.F_INDEX:
 		s, err := s1(0)
 		if err != nil {
